@@ -1,6 +1,8 @@
 /* Real translation units of the `replysites` engine, unchanged, from VERIF_REPO's working tree:
- * the command handlers, the address parser and the user configuration backend. */
+ * the command handlers, qsmtpd/syntax.c (wait_for_quit, check_max_bad_commands, sync_pipelining, hasinput),
+ * the address parser and the user configuration backend. */
 #include "qsmtpd/commands.c"
+#include "qsmtpd/syntax.c"
 #include "qsmtpd/addrparse.c"
 #include "qsmtpd/addrsyntax.c"
 #include "qsmtpd/xtext.c"
